@@ -93,10 +93,10 @@ def setup_psolve(I):
     s, Pb, dims, gamma, P, n, hi, hist = mk_periodic(I)
     I.call(I.getattr(s, "_setup_jax_functions"), [], {})
     n0, maxit, f, dec = z3.Ints("n0 max_iterations checkpoint_frequency decimals"); eps = z3.Real("epsilon")
-    I.assume(z3.And(n0 >= 0, maxit >= 1, f == 0, dec >= 0, eps > 0))
+    I.assume(z3.And(n0 >= 0, maxit >= 1, f >= 0, dec >= 0, eps > 0))
     tr = Trajectory(gamma, "span")
     s.attrs.update({"iteration": n0, "values": tr.opaque(n0), "batched_states": prepared(Pb, dims), "policy": None, "epsilon": eps, "conv_threshold": eps,
-                    "_convergence_desc": "period_span", "convergence_format": FormatSpec(dec), "checkpoint_frequency": f, "checkpoint_manager": None,
+                    "_convergence_desc": "period_span", "convergence_format": FormatSpec(dec), "checkpoint_frequency": f, "checkpoint_manager": Obj("CheckpointManager", {}, label="CM"),
                     "history_index": n0 % (P + 1), "clear_value_history_on_convergence": False})
     # the measure is verified separately (B.3 of the design): here it is the documented function of the sweep index
     s.attrs["_convergence_test_fn"] = Builtin(lambda new, old, hidx, per, histo, it, g: PMEAS(toz3(it)), "periodic_measure")
